@@ -116,39 +116,6 @@ Proof.
   eapply phase_ok_closed. exact Hph.
 Qed.
 
-(* a socket at the start of an epoch: empty transmit buffer, SND.UNA = SND.NXT = ISS *)
-Definition g_fresh (isn : Z) : ghost := mkGhost isn [] 0 PSyn 0 false 0.
-
-Lemma fresh_inv : forall s isn,
-  rb_wf (s_tx_buffer s) -> rb_cap (s_tx_buffer s) <= 2 ^ 30 -> rb_len (s_tx_buffer s) = 0 ->
-  0 <= isn < 2 ^ 32 -> s_local_seq_no s = isn -> s_remote_last_seq s = isn ->
-  0 <= s_remote_win_len s <= max_window ->
-  match s_remote_win_scale s with Some v => 0 <= v <= 14 | None => True end ->
-  match s_state s with Closed | Listen | SynSent | SynReceived => True | _ => False end ->
-  (timer_is_zero_window_probe (s_timer s) = true -> s_remote_win_len s = 0) ->
-  inv (g_fresh isn) s.
-Proof.
-  intros s isn Hwf Hcap Hlen Hisn Hl Hr Hw Hs Hst Hz. split.
-  - unfold tx_inv, tx_inv_f, g_fresh, g_una, g_budget, phase_ok, g_W.
-    cbn [g_iss g_stream g_acked g_phase g_flight g_fin g_hw]. rewrite Hlen, Hl, Hr.
-    split; [exact Hwf|]. split; [exact Hcap|]. split; [lia|]. split; [reflexivity|].
-    split; [intros; lia|]. split; [rewrite Z.add_0_r; symmetry; apply sq_small; exact Hisn|].
-    split; [rewrite !Z.add_0_r; symmetry; apply sq_small; exact Hisn|].
-    split; [lia|]. split; [lia|].
-    split; [destruct (s_state s); tauto|]. split; [exact Hw|exact Hs].
-  - unfold tm_inv, tm_inv_f, g_fresh. cbn [g_flight]. split; [exact Hz|auto].
-Qed.
-
-Lemma new_epoch_fresh : forall g isn, ghost_rel g (g_fresh isn).
-Proof. intros. right. unfold new_epoch, g_fresh. cbn. auto. Qed.
-
-Lemma reset_fields : forall s,
-  s_tx_buffer (tcp_reset s) = rb_clear (s_tx_buffer s) /\
-  s_local_seq_no (tcp_reset s) = 0 /\ s_remote_last_seq (tcp_reset s) = 0 /\
-  s_remote_win_len (tcp_reset s) = 0 /\ s_remote_win_scale (tcp_reset s) = None /\
-  s_timer (tcp_reset s) = TIdle None /\ s_state (tcp_reset s) = Closed.
-Proof. intros. unfold tcp_reset, timer_new. fld. repeat split; reflexivity. Qed.
-
 Lemma listen_inv : forall g s ep s', inv g s -> tcp_listen s ep = Ok s' ->
   exists g', inv g' s' /\ ghost_rel g g'.
 Proof.
